@@ -59,6 +59,7 @@ func writeEvidenceFile(b *build, a *agg, prop, tier string, seed uint64, violati
 		"schedulers_used":                  a.modes,
 		"scenario_kinds":                   a.kinds,
 		"block_size_knob_values":           a.knobs,
+		"input_themes":                     a.themes,
 		"yield_sites":                      map[string]interface{}{"total": len(b.instr.Sites), "executed": len(a.sitesHit), "with_a_task_switch": len(a.sitesSwitch), "functions_total": len(fnAll), "functions_executed": len(fnHit), "switches_by_file": switchFn},
 		"race_detector_reports":            a.races,
 		"operations_checked":               a.ops,
